@@ -37,7 +37,7 @@ pub fn run(ctx: &mut Ctx) {
         (from_int(&BigInt::from(1)), "verifier 1"), (rng.arr(), "random verifier"),
     ];
     let mut model_cases = 0;
-    let model_budget = if ctx.quick() { 14 } else { 90 };
+    let model_budget = if ctx.quick() { 60 } else { 400 };
     for (v, vlabel) in &verifiers {
         let keys = adversarial_keys(&mut rng, v);
         for (a_pub, alabel) in &keys {
